@@ -1,0 +1,21 @@
+//go:build verif
+
+package ls
+
+import (
+	"os"
+	"strconv"
+	"time"
+)
+
+// verifDelay is a verification hook (compiled only with the "verif" build tag): it holds a
+// handler for VERIF_LS_DELAY_MS milliseconds when the document version is 2 modulo 5, which
+// lets a test driver decide which handlers are slow.
+func verifDelay(version uint32) {
+	if version%5 != 2 {
+		return
+	}
+	if ms, err := strconv.Atoi(os.Getenv("VERIF_LS_DELAY_MS")); err == nil && ms > 0 {
+		time.Sleep(time.Duration(ms) * time.Millisecond)
+	}
+}
